@@ -115,6 +115,11 @@ def table(rng):
     add("partition", "1-D kth=2", (lambda m, z: m.partition(z, 2)), (5,), True)
     add("diagonal", "last two axes", (lambda m, z: m.diagonal(z, 0, -1, -2)), C3)
     add("diagonal", "last two axes of a matrix", (lambda m, z: m.diagonal(z, axis1=-1, axis2=-2)), B)
+    # inputs large enough for NumPy to switch algorithms (introselect / different arrangements of partition and argpartition)
+    add("partition", "1-D n=1000 kth=333", (lambda m, z: m.partition(z, 333)), (1000,), True)
+    add("partition", "1-D n=600 kth=(10, 500)", (lambda m, z: m.partition(z, (10, 500))), (600,), True)
+    add("sort", "1-D n=1000", (lambda m, z: m.sort(z)), (1000,), True)
+    add("max", "n=1000", (lambda m, z: m.max(z)), (1000,), True)
     add("msort-like", "sort axis=0 of 3-D", (lambda m, z: m.sort(z, axis=0)), C3, True)
     add("partition", "kth=1", (lambda m, z: m.partition(z, 1, axis=1)), B, True)
     for name in ("maximum", "minimum", "fmax", "fmin"):
